@@ -373,6 +373,8 @@ def main(ctx):
     # seed None (OS entropy): the restored object must still equal the saved one
     cells.append({"kind": "bfs", "cfg": {"lineup": lineups[0], "seed": None, "dims": 2, "model": "gauss2", "ensemble": 1}, "depth": 3, "auto": True, "new_runs": []})
     cells.append({"kind": "bfs", "cfg": {"lineup": lineups[2], "seed": None, "dims": 1, "model": "gauss2", "ensemble": 1}, "depth": 3, "auto": False, "new_runs": []})
+    # more than ten parameters (column naming / ordering of the results table)
+    cells.append({"kind": "bfs", "cfg": {"lineup": lineups[0], "seed": S, "dims": 12, "model": "gauss2", "ensemble": 1}, "depth": 2, "auto": True, "new_runs": []})
     # RL scheduler
     cells.append({"kind": "bfs", "cfg": {"lineup": lineups[0], "seed": S, "dims": 2, "model": "gauss2", "ensemble": 1, "scheduler": {"eps": 0.3, "agent_seed": 1}}, "depth": 2, "auto": True, "new_runs": []})
     ctx.bounds = {"depth": depth, "ops": ["calibrate(1)", "calibrate(2)", "create_checkpoint", "restore", "new run in same folder (seed/line-up/batch size/ensemble variants)"],
